@@ -18,6 +18,7 @@ import (
 	"github.com/daeuniverse/dae/common/consts"
 	"github.com/daeuniverse/dae/component/outbound"
 	"github.com/daeuniverse/dae/component/outbound/dialer"
+	"github.com/daeuniverse/dae/control"
 	"github.com/daeuniverse/dae/verifx/dialerh"
 	"github.com/daeuniverse/dae/verifx/fastrandx"
 )
@@ -130,6 +131,7 @@ type world struct {
 	types [6]*dialer.NetworkType
 	offs  []time.Duration
 	pol   pol
+	glue  *control.VerifGlue
 }
 
 var (
@@ -154,6 +156,7 @@ func newWorld(c *cfg) *world {
 	}
 	w.g = outbound.NewDialerGroup(opt, "g", w.nodes, annos, outbound.DialerSelectionPolicy{Policy: c.initPol.p, FixedIndex: c.initPol.fixed},
 		func(alive bool, nt *dialer.NetworkType, isInit bool) {})
+	w.glue = control.VerifNewGlue(w.g, quietLog)
 	return w
 }
 
@@ -223,6 +226,7 @@ type selObs struct {
 	typ    int
 	strict bool
 	excl   int
+	glue   string   // "" = DialerGroup.SelectWithExclusionResult; else the flow selected through control's chooseProxyDialer
 	out    []selRes // every outcome (1 unless random)
 }
 
@@ -284,6 +288,42 @@ func (w *world) selectOnce(t int, strict bool, excl int) selRes {
 	return r
 }
 
+// glueOnce: the same selection performed through the REAL control-plane glue ControlPlane.chooseProxyDialer (first
+// selection for the flow's type, then its alternate-IP-family retry), as udp.go's failover paths call it with Excluded.
+func (w *world) glueOnce(network string, v6, withDomain bool, excl int) selRes {
+	var ex *dialer.Dialer
+	if excl >= 0 {
+		ex = w.nodes[excl]
+	}
+	d, adm, err := w.glue.Choose(network, v6, withDomain, ex)
+	r := selRes{node: w.nodeIdx(d), adm: dialer.VerifTypeName(adm)}
+	if err != nil {
+		r.node = -1
+		if errors.Is(err, outbound.ErrNoAliveDialer) {
+			r.err = "noalive"
+		} else {
+			r.err = err.Error()
+		}
+	}
+	return r
+}
+
+func (w *world) observe(o *selObs, once func() selRes) {
+	if w.pol.p == consts.DialerSelectionPolicy_Random {
+		seen := map[selRes]bool{}
+		fastrandx.ForAll(func() {
+			r := once()
+			if !seen[r] {
+				seen[r] = true
+				o.out = append(o.out, r)
+			}
+		})
+		sort.Slice(o.out, func(i, j int) bool { return o.out[i].node < o.out[j].node })
+	} else {
+		o.out = []selRes{once()}
+	}
+}
+
 // snapshot observes the state; lite = only what the step rule needs from the PRE state (taken inside the run).
 func (w *world) snapshot(lite bool) *snap {
 	s := &snap{pol: w.pol}
@@ -307,20 +347,37 @@ func (w *world) snapshot(lite bool) *snap {
 					continue
 				}
 				o := selObs{typ: t, strict: strict, excl: excl}
-				if w.pol.p == consts.DialerSelectionPolicy_Random {
-					seen := map[selRes]bool{}
-					fastrandx.ForAll(func() {
-						r := w.selectOnce(t, strict, excl)
-						if !seen[r] {
-							seen[r] = true
-							o.out = append(o.out, r)
-						}
-					})
-					sort.Slice(o.out, func(i, j int) bool { return o.out[i].node < o.out[j].node })
-				} else {
-					o.out = []selRes{w.selectOnce(t, strict, excl)}
-				}
+				w.observe(&o, func() selRes { return w.selectOnce(t, strict, excl) })
 				s.sel = append(s.sel, o)
+			}
+		}
+	}
+	if lite {
+		return s
+	}
+	// the same state seen through control's glue: tcp/udp flows of both IP families, dialled by IP (first selection
+	// strict) or by sniffed domain (non-strict), with and without an excluded node. The glue itself retries the other
+	// family, i.e. it is a caller that allows it: judged like a non-strict selection of the flow's type.
+	for _, network := range []string{"tcp", "udp"} {
+		for _, v6 := range []bool{false, true} {
+			t := TCP4
+			if network == "udp" {
+				t = DAT4
+			}
+			fam := "v4"
+			if v6 {
+				t, fam = other(t), "v6"
+			}
+			for _, withDomain := range []bool{false, true} {
+				how := "ip"
+				if withDomain {
+					how = "domain"
+				}
+				for excl := -1; excl < w.c.n; excl++ {
+					o := selObs{typ: t, strict: false, excl: excl, glue: network + "/" + fam + "/" + how}
+					w.observe(&o, func() selRes { return w.glueOnce(network, v6, withDomain, excl) })
+					s.sel = append(s.sel, o)
+				}
 			}
 		}
 	}
@@ -410,6 +467,9 @@ func (j *judge) viol(kind, what string, detail any) {
 func (j *judge) judgeSelect(s *snap, o *selObs, r selRes) int {
 	n := j.w.c.n
 	desc := func() string {
+		if o.glue != "" {
+			return fmt.Sprintf("chooseProxyDialer(flow %s -> %s,excluded=%s) under %s -> %s", o.glue, typeShort[o.typ], nodeName(o.excl), s.pol, r)
+		}
 		return fmt.Sprintf("select(%s,strict=%v,excluded=%s) under %s -> %s", typeShort[o.typ], o.strict, nodeName(o.excl), s.pol, r)
 	}
 	if s.pol.isFixed() {
@@ -630,7 +690,7 @@ func (j *judge) judgeCache(pre, post *snap, e event) {
 func findSel(s *snap, t int, strict bool, excl int) *selObs {
 	for k := range s.sel {
 		o := &s.sel[k]
-		if o.typ == t && o.strict == strict && o.excl == excl {
+		if o.glue == "" && o.typ == t && o.strict == strict && o.excl == excl {
 			return o
 		}
 	}
@@ -748,7 +808,7 @@ func makeScenario(c *cfg) *dialerh.Scenario {
 			if verbose {
 				fmt.Printf("    state: %s\n", res.Key)
 				for _, o := range post.sel {
-					fmt.Printf("    select(%s,strict=%v,excl=%s) = %v\n", typeShort[o.typ], o.strict, nodeName(o.excl), o.out)
+					fmt.Printf("    select(%s,strict=%v,excl=%s,glue=%q) = %v\n", typeShort[o.typ], o.strict, nodeName(o.excl), o.glue, o.out)
 				}
 			}
 			return res
@@ -891,7 +951,7 @@ func famSizes(thorough bool) sizes {
 func main() {
 	dialerh.Main(&dialerh.Plan{
 		ID: "C15",
-		Rule: "states = distinct FULL dumps (every collection of every node: alive flag, counters, latency window, moving average; recovery back-off levels and pending timers as deadline-minus-now; every AliveDialerSet: aliveEntries order with cached latencies, dialerToIndex, dialerToLatency, cached best; current policy; process-wide failure tracker) reached by BFS over event histories on the real DialerGroup, one history = fresh objects + replay inside ONE vsched.Run on the virtual clock (a scripted probe takes its latency as virtual time inside the real Dialer.check()); transitions = (state,event) executions; in EVERY state all selections SelectWithExclusionResult(type in tcp4,data-udp4,data-udp6,dns-udp4; strict in t,f; excluded in none,each node) are evaluated — under the random policy once per vector of fastrand.Intn answers (exhaustive odometer) — and judged against the reference from the statement, consecutive states by the tolerance rule; alphabet per scenario family: lat (one domain, probe ok 10/40/100/160ms, probe/traffic/forced fail, traffic ok, policy switches), chain (data-UDP -> DNS-UDP -> TCP), fam (other IP family), tcp46; groups of 1..3 nodes, offset none / +30ms on node a, tolerance 0 / 50ms, every policy as the initial one; distinct_nontrivial = distinct (policy, tolerance, alive matrix, all selection outcomes) observations summed over scenarios",
+		Rule: "states = distinct FULL dumps (every collection of every node: alive flag, counters, latency window, moving average; recovery back-off levels and pending timers as deadline-minus-now; every AliveDialerSet: aliveEntries order with cached latencies, dialerToIndex, dialerToLatency, cached best; current policy; process-wide failure tracker) reached by BFS over event histories on the real DialerGroup, one history = fresh objects + replay inside ONE vsched.Run on the virtual clock (a scripted probe takes its latency as virtual time inside the real Dialer.check()); transitions = (state,event) executions; in EVERY state all selections SelectWithExclusionResult(type in tcp4,data-udp4,data-udp6,dns-udp4; strict in t,f; excluded in none,each node) AND the same selections through the real control-plane glue ControlPlane.chooseProxyDialer (tcp/udp flows x v4/v6 x dial-by-IP/dial-by-domain x excluded in none,each node; real-mode build of package control) are evaluated — under the random policy once per vector of fastrand.Intn answers (exhaustive odometer) — and judged against the reference from the statement, consecutive states by the tolerance rule; alphabet per scenario family: lat (one domain, probe ok 10/40/100/160ms, probe/traffic/forced fail, traffic ok, policy switches), chain (data-UDP -> DNS-UDP -> TCP), fam (other IP family), tcp46; groups of 1..3 nodes, offset none / +30ms on node a, tolerance 0 / 50ms, every policy as the initial one; distinct_nontrivial = distinct (policy, tolerance, alive matrix, all selection outcomes) observations summed over scenarios",
 		Scenarios:   scenarios,
 		BudgetQuick: 45 * time.Second, BudgetThorough: 17 * time.Minute,
 		Assumptions: []string{
